@@ -8,7 +8,7 @@ INVS = ["AliveOK", "GoneOK"]
 
 def consts(adapter, ops, insts='{"i1","i2","i3"}', timeouts='{1,2,3}', ticks='{1,2}', maxnow=6, stop=2):
     return dict(Inst=insts, Timeouts=timeouts, Ticks=ticks, KVals='{0}', StepVals='{0}', Stop=str(stop), MaxNow=str(maxnow),
-                Scen='{"base"}', Ops=ops, Adapter="TRUE" if adapter else "FALSE", Dev='{}')
+                Scen='{"base"}', Ops=ops, Adapter="TRUE" if adapter else "FALSE", Compress='FALSE', Dev='{}')
 
 
 OPS_MEM = '{"Start","KeepAlive","Metrics","Tick","Results","Stop"}'
@@ -58,7 +58,7 @@ def run(tier, replay_file=None):
             break
     R.cov["ops_replayed"] = ops
     R.cov["units"] = units
-    if ops.get("Metrics", 0) < 20 or ops.get("Tick", 0) < 50:
+    if not R.violations and (ops.get("Metrics", 0) < 20 or ops.get("Tick", 0) < 50):
         raise common.Machinery("too few timed events generated (vacuous)")
     R.sample([{k: v for k, v in h.items() if k not in ("rows", "want", "row")} for h in plans[0][2][0]])
     # negative control: an instance that the spec says is gone is claimed alive
